@@ -135,7 +135,7 @@ def run(tier, seed):
                       "arg": os.path.relpath(path, cwd) if rel else path})
 
     def run_cli(c):
-        p = subprocess.run([cli, c["arg"]], cwd=cwd, stdout=subprocess.PIPE, stderr=subprocess.PIPE, timeout=120)
+        p = subprocess.run([cli, c["arg"]], cwd=cwd, stdout=subprocess.PIPE, stderr=subprocess.PIPE, timeout=900)
         return p.returncode, p.stdout, p.stderr
     with ThreadPoolExecutor(max_workers=core.NCPU) as ex:
         outs = list(ex.map(run_cli, cases))
@@ -196,7 +196,7 @@ def run(tier, seed):
             os.makedirs(pth)
         elif data is not None:
             open(pth, "wb").write(data)
-        p = subprocess.run([cli, pth], cwd=cwd, stdout=subprocess.PIPE, stderr=subprocess.PIPE, timeout=60)
+        p = subprocess.run([cli, pth], cwd=cwd, stdout=subprocess.PIPE, stderr=subprocess.PIPE, timeout=900)
         se = ANSI.sub("", p.stderr.decode("utf8", "replace"))
         ctx.evaluations += 1
         want_ok = name == "empty.scm"
